@@ -73,6 +73,20 @@ def simOp (net : Net) (toks : List String) : Option (Net × String) :=
   | ["new", n] => (nat n).map fun n => (net.set n {}, "ok")
   | ["create", n] => (nat n).map fun n => let (net', e) := create net n; (net', errStr e)
   | ["join", j, p] => do let j ← nat j; let p ← nat p; let (net', e) := join net j p; pure (net', errStr e)
+  | ["joinprobe", j, p, k] => do
+    -- a lookup at the joiner while its join request is on the way (state Joining, no pointers yet), then the join
+    let j ← nat j; let p ← nat p; let k ← nat k
+    match net.get j with
+    | none => none
+    | some nd =>
+      if nd.state != .inactive then
+        let (net', e) := join net j p
+        pure (net', "nopause;" ++ errStr e)
+      else
+        let net1 := net.upd j (fun nd => { nd with state := .joining })
+        let lres := match findSucc net1 FUEL j k with | .found o => s!"found:{o}" | .err e => "err:" ++ e.name
+        let (net', e) := join net j p
+        pure (net', lres ++ ";" ++ errStr e)
   | ["joinbegin", j, p] => do let j ← nat j; let p ← nat p; let (net', e) := joinBegin net j p; pure (net', errStr e)
   | ["jointasks", j] => (nat j).map fun j => (joinTasks net j, "pending:FinishJoin(true,false)")
   | ["joinadvise", j] => (nat j).map fun j => (joinAdvise net j, "pending:FinishJoin(false,true)")
